@@ -27,6 +27,8 @@ struct H {
     std::vector<char> proven;           // per actor: its current wait is certainly in the queue (somebody acquired the user lock after it began to wait,
                                         // and releasing the lock and enqueuing is one step)
     long n1_started = 0, n1_in_flight = 0, nall_started = 0, nall_in_flight = 0;   // notify_one / notify_all calls (any flavour)
+    long unlocked_all_in_flight = 0;    // notify_all calls without the lock in progress: whoever waits meanwhile may be dequeued by them
+    std::vector<int> unattributed;      // per actor: waits that returned 0 before the notifier that dequeued them had noted it
     std::set<std::string> labels;
     bool nt = false;
 
@@ -49,7 +51,7 @@ struct H {
             long tmo = r.at(1);
             L_lock(id);
             long inst = ++instance_counter;
-            waiting[id] = 1; wait_instance[id] = inst; qstate[id] = 0; proven[id] = 0;
+            waiting[id] = 1; wait_instance[id] = inst; qstate[id] = unlocked_all_in_flight > 0 ? 2 : 0; proven[id] = 0;
             if (getenv("C03_DEBUG")) fprintf(stderr, "[c03] t=%lu actor%d wait start inst %ld tmo %ld\n", (unsigned long)ctl.vnow, id, inst, tmo);
             deadline[id] = tmo < 0 ? 0 : photon::now + (uint64_t)std::max<long>(tmo, 0);
             if (tmo == 0) deadline[id] = 1;    // already expired
@@ -63,6 +65,7 @@ struct H {
             if (holder != -1) ctl.violation("actor" + std::to_string(id) + ": cv.wait returned while actor" + std::to_string(holder) + " holds the lock");
             holder = id;
             if (getenv("C03_DEBUG")) fprintf(stderr, "[c03] t=%lu actor%d wait returned %d\n", (unsigned long)ctl.vnow, id, ret);
+            if (ret == 0 && qstate[id] == 0) unattributed[id]++;      // dequeued by a notifier (without the lock) that has not noted it yet
             waiting[id] = 0; proven[id] = 0;
             if (ret == 0) {
                 waits_ok++;
@@ -99,7 +102,6 @@ struct H {
                     if (!unlocked_overlap && qstate[j] == 0 && (deadline[j] == 0 || deadline[j] > ctl.vnow + 2)) sure.push_back(j); else maybe.push_back(j);
                 }
             };
-            std::vector<long> inst_before(wait_instance.begin(), wait_instance.end());   // a notifier without the lock can be overtaken: the waiter it dequeued may already be in its NEXT wait when the call returns here
             if (!all) {
                 // untimed waiters that are certainly queued and not yet dequeued by anybody, at the start of this call
                 std::vector<int> settled;
@@ -131,18 +133,22 @@ struct H {
                 } else if (t) {
                     int j = actor_of(t);
                     if (j < 0) ctl.violation("notify_one() returned an unknown thread");
-                    if (waiting[j] && wait_instance[j] == inst_before[j]) qstate[j] = 1;
+                    // the waiter it dequeued may have returned already (and be in its next wait): then the note belongs to that finished wait
+                    if (unattributed[j] > 0) unattributed[j]--;
+                    else if (waiting[j]) qstate[j] = 1;
                 }
             } else {
                 notify_in_flight += C.nactors();
                 nall_started++; nall_in_flight++;
+                if (!locked) { unlocked_all_in_flight++; for (int j = 0; j < C.nactors(); j++) if (waiting[j] && qstate[j] == 0) qstate[j] = 2; }
                 int n = cv.notify_all();
+                if (!locked) unlocked_all_in_flight--;
                 nall_in_flight--;
                 notify_in_flight -= C.nactors();
                 classify();
                 if (n < 0 || n > C.nactors()) ctl.violation("notify_all() returned " + std::to_string(n));
                 notified_total += n;
-                if (!locked && n > 0) for (int j = 0; j < C.nactors(); j++) if (waiting[j] && qstate[j] == 0 && wait_instance[j] == inst_before[j]) qstate[j] = 2;
+                if (!locked && n > 0) for (int j = 0; j < C.nactors(); j++) { if (waiting[j] && qstate[j] == 0) qstate[j] = 2; unattributed[j] = 0; }
                 if (locked) {
                     if (n < (int)sure.size() || n > (int)(sure.size() + maybe.size()))
                         ctl.violation("notify_all() woke " + std::to_string(n) + " waiters; " + std::to_string(sure.size()) + " were surely waiting and " + std::to_string(maybe.size()) + " possibly");
@@ -166,7 +172,7 @@ Outcome run_case(const Case& c) {
     h.use_spin = c.cfg.at(5) != 0;
     h.C.setup(c, [&](int id, const std::vector<long>& r) { h.run_op(id, r); });
     int n = h.C.nactors();
-    h.waiting.assign(n, 0); h.wait_instance.assign(n, 0); h.deadline.assign(n, 0); h.must_wake.assign(n, 0); h.qstate.assign(n, 0); h.proven.assign(n, 0);
+    h.waiting.assign(n, 0); h.wait_instance.assign(n, 0); h.deadline.assign(n, 0); h.must_wake.assign(n, 0); h.qstate.assign(n, 0); h.proven.assign(n, 0); h.unattributed.assign(n, 0);
     auto& ctl = h.C.L.ctl;
     ctl.on_quiescence = [&]() {
         for (int j = 0; j < n; j++) {
